@@ -227,6 +227,29 @@ def roundtrip_check(b, pts, update=True):
             if u['raised']:
                 out['raised'] = 'update: ' + u['raised']
             f.close()
+            # update() in the states an incremental write can meet: cache drained exactly, and after reset()
+            for how in ('drain', 'reset'):
+                if out['raised']:
+                    break
+                w = copy.deepcopy(b)
+                f = _h5()
+                g = f.create_group('b')
+                w.sample(300)
+                w.write(g)                      # the group now holds a non-empty proposal cache
+                if how == 'drain':
+                    if len(w.points):
+                        w.sample(len(w.points))
+                else:
+                    w.reset()
+                w.update(g)
+                r = cls.read(g, rng=clone_rng(find_rng(w)))
+                u = same_behaviour(w, r, pts, n_dim)
+                out['updContainsSame'] = out['updContainsSame'] and u['containsSame']
+                out['updVolSame'] = out['updVolSame'] and u['volSame']
+                out['updStreamSame'] = out['updStreamSame'] and u['streamSame']
+                if u['raised']:
+                    out['raised'] = 'update after %s: %s' % (how, u['raised'])
+                f.close()
     except Exception as e:
         out['raised'] = '%s: %s' % (type(e).__name__, str(e)[:150])
     return out
